@@ -790,6 +790,16 @@ pub mod verif {
     pub fn to_array(mac: &[u8]) -> Option<[u8; 6]> {
         super::to_array(mac)
     }
+    /// the frame the receive loop sends for a serialised reply (None: does not fit, not sent)
+    pub fn reply_frame(
+        src: erbium_net::addr::Inet4Addr,
+        srcmac: &[u8; 6],
+        dst: erbium_net::addr::Inet4Addr,
+        dstmac: &[u8; 6],
+        replybuf: &[u8],
+    ) -> Option<Vec<u8>> {
+        super::reply_frame(src, srcmac, dst, dstmac, replybuf)
+    }
 }
 
 enum RunError {
